@@ -1,6 +1,7 @@
 //! Object-safe access to the 15 hash types (plus extra Skein output sizes) through their public `digest` API.
 use digest::generic_array::typenum::{U128, U20, U32, U64, U8};
-use digest::{BlockInput, Digest, FixedOutput, Reset, Update};
+use digest::generic_array::GenericArray;
+use digest::{BlockInput, Digest, FixedOutput, FixedOutputDirty, Reset, Update};
 
 pub trait HashObj: Send {
     fn update(&mut self, data: &[u8]);
@@ -10,6 +11,14 @@ pub trait HashObj: Send {
     fn finalize_reset(&mut self) -> Vec<u8>;
     /// FixedOutput::finalize_fixed_reset (finalize in place + reset)
     fn finalize_fixed_reset(&mut self) -> Vec<u8>;
+    /// FixedOutput::finalize_into_reset into a caller-provided slice (exactly the output size)
+    fn finalize_into_reset_at(&mut self, out: &mut [u8]);
+    /// FixedOutputDirty::finalize_into_dirty followed by an explicit Reset::reset
+    fn finalize_dirty_then_reset(&mut self) -> Vec<u8>;
+    /// FixedOutput::finalize_into (consuming) into a caller-provided slice
+    fn finalize_into_at(self: Box<Self>, out: &mut [u8]);
+    /// FixedOutput::finalize_fixed (consuming)
+    fn finalize_fixed_box(self: Box<Self>) -> Vec<u8>;
     fn reset(&mut self);
     fn clone_box(&self) -> Box<dyn HashObj>;
     /// hook H2 (only with the verification cfg): the length counter, the hash's "clock"
@@ -24,8 +33,23 @@ pub trait Counter {
 
 impl<D> HashObj for D
 where
-    D: Digest + Update + FixedOutput + Reset + BlockInput + Clone + Default + Counter + Send + 'static,
+    D: Digest + Update + FixedOutput + FixedOutputDirty<OutputSize = <D as FixedOutput>::OutputSize> + Reset + BlockInput + Clone + Default + Counter + Send + 'static,
 {
+    fn finalize_into_reset_at(&mut self, out: &mut [u8]) {
+        FixedOutput::finalize_into_reset(self, GenericArray::from_mut_slice(out))
+    }
+    fn finalize_dirty_then_reset(&mut self) -> Vec<u8> {
+        let mut out = GenericArray::<u8, <D as FixedOutput>::OutputSize>::default();
+        FixedOutputDirty::finalize_into_dirty(self, &mut out);
+        Reset::reset(self);
+        out.to_vec()
+    }
+    fn finalize_into_at(self: Box<Self>, out: &mut [u8]) {
+        FixedOutput::finalize_into(*self, GenericArray::from_mut_slice(out))
+    }
+    fn finalize_fixed_box(self: Box<Self>) -> Vec<u8> {
+        FixedOutput::finalize_fixed(*self).to_vec()
+    }
     fn update(&mut self, data: &[u8]) {
         Digest::update(self, data)
     }
